@@ -84,11 +84,14 @@ theorem wf_dict_elem (dict : Tag → Option VR) : ∀ e, WfImp dict e → WfElem
       · simp only [dictElem, heq, if_false]
         rw [h1]
         have hpv := paddedValue_un_u8 _ heven
-        refine ⟨htag, by intro hx; cases hx.1, ?_, ?_, Or.inr h1⟩
-        · refine ⟨by decide, trivial, fun hx => by rcases hx with hx | hx <;> cases hx, ?_⟩
+        refine ⟨htag, ?_, ?_, ?_, Or.inr h1⟩
+        · intro hx; cases hx.1
+        · show ValidFor false .UN (.u8 (paddedValue false vr v))
+          refine And.intro (by decide) (And.intro trivial (And.intro ?_ ?_))
+          · intro hx; rcases hx with hx | hx <;> cases hx
           right; right; left
-          exact ⟨Or.inr rfl, by show ∀ b ∈ paddedValue false .UN (.u8 _), b < 256; rw [hpv]; exact hb⟩
-        · show FitsHeader .implicitLE .UN (paddedValue false .UN (.u8 _)).length
+          exact ⟨Or.inr rfl, by rw [hpv]; exact hb⟩
+        · show FitsHeader .implicitLE .UN (paddedValue false .UN (.u8 (paddedValue false vr v))).length
           rw [hpv]; exact ⟨hsz, fun hx => by cases hx⟩
   | .seq tag len items, h => ⟨h.1, h.2.1, wf_dict_items dict items h.2.2⟩
   | .pix bot frags, h => h
@@ -198,11 +201,11 @@ end
 mutual
 theorem tokwf_imp_elem (dict : Tag → Option VR) : ∀ e, WfImp dict e → e.WF
   | .prim tag vr len v, h => ⟨h.2.2.1.1, h.2.1⟩
-  | .seq tag len items, h => tokwf_imp_items dict items h.2.2
+  | .seq tag _ items, h => tokwf_imp_items dict items h.2.2
   | .pix bot frags, h => fun f hf => by have := (h.2.2 f hf).1; omega
 theorem tokwf_imp_items (dict : Tag → Option VR) : ∀ its, WfImpItems dict its → its.WF
   | .nil, _ => trivial
-  | .cons len es r, h => ⟨tokwf_imp_elems dict es h.1, tokwf_imp_items dict r h.2.2⟩
+  | .cons _ es r, h => ⟨tokwf_imp_elems dict es h.1, tokwf_imp_items dict r h.2.2⟩
 theorem tokwf_imp_elems (dict : Tag → Option VR) : ∀ es, WfImpElems dict es → es.WF
   | .nil, _ => trivial
   | .cons e r, h => ⟨tokwf_imp_elem dict e h.1, tokwf_imp_elems dict r h.2⟩
